@@ -377,6 +377,24 @@ pub fn run() -> i32 {
             }
             _ => ok = false,
         }
+        // the caller's own public key is hashed exactly as stored in the key pair, whatever it is:
+        // the same point with the top bit set, and an unrelated key
+        for (what, own_pk) in [("own-pk-top-bit", { let mut x = pka; x[31] |= 0x80; x }), ("own-pk-unrelated", pkb)] {
+            let want_c = sodium::kx_client(&own_pk, ska, &pkb);
+            let want_s = sodium::kx_server(&own_pk, ska, &pkb);
+            let odd: KeyPair<StackByteArray<32>, StackByteArray<32>> = KeyPair::from_slices(&own_pk, ska).unwrap();
+            let peer: StackByteArray<32> = pkb.into();
+            let c1 = Session::<StackByteArray<32>>::new_client(&odd, &peer).ok().map(|s| (*s.rx_as_array(), *s.tx_as_array()));
+            let s1 = Session::<StackByteArray<32>>::new_server(&odd, &peer).ok().map(|s| (*s.rx_as_array(), *s.tx_as_array()));
+            let c2 = odd.kx_new_client_session::<Vec<u8>>(&peer).ok().map(|s| (s.rx_as_slice().to_vec(), s.tx_as_slice().to_vec()));
+            let (mut rx, mut tx) = ([0xC3u8; 32], [0xC3u8; 32]);
+            let c0 = crypto_kx_client_session_keys(&mut rx, &mut tx, &own_pk, ska, &pkb).ok().map(|_| (rx, tx));
+            let okk = c1 == want_c && s1 == want_s && c0 == want_c && c2 == want_c.map(|(a, b)| (a.to_vec(), b.to_vec()));
+            if !okk {
+                ok = false;
+                st.fail(Fail { check: "C05.x25519".into(), signature: format!("C05/kx/differs/{}", what), what: format!("key exchange with a key pair whose stored public key is {} (sk {}): session keys differ from libsodium, which hashes the public key as supplied", hx(&own_pk), hx(ska)), case: json!({"kind": "mult", "n": hx(ska), "p": hx(&pkb)}) });
+            }
+        }
         st.eval(&("kx", a, b), true, if ok { "kx==libsodium" } else { "kx-differs" });
         if !ok {
             st.fail(Fail { check: "C05.x25519".into(), signature: "C05/kx/differs".into(), what: format!("session keys differ from libsodium or client/server keys do not mirror (client sk {}, server sk {})", hx(ska), hx(skb)), case: json!({"kind": "mult", "n": hx(ska), "p": hx(&pkb)}) });
